@@ -43,7 +43,7 @@ func scratchModule(prefix string) (string, error) {
 		return "", err
 	}
 	for _, f := range []string{"go.mod", "go.sum"} {
-		data, err := os.ReadFile(f) // the worker's working directory is the scratch module
+		data, err := os.ReadFile(filepath.Join(os.Getenv("VW_MODDIR"), f)) // the scratch module this binary was built in
 		if err != nil {
 			return "", fmt.Errorf("scratch module file %s: %v", f, err)
 		}
